@@ -2,7 +2,7 @@
 """import_seed.py <ID> <name> <caught_by comma list> <missed_before comma list or -> <what I ran>: copies /tmp/seed_out/<ID> into /verif/seeded/<name>/ and records my own confirmation in meta.json."""
 import json, os, shutil, sys
 sid, name, caught, missed, ran = sys.argv[1:6]
-src = "/tmp/seed_out/%s" % sid
+src = os.path.join(os.environ.get("SEED_SRC", "/tmp/seed_out"), sid)
 dst = "/verif/seeded/%s" % name
 os.makedirs(dst, exist_ok=True)
 for f in os.listdir(src):
